@@ -282,6 +282,10 @@ def monitor_trips(ctx, per_def=None, prop="C06", types=None, fmts=None):
     for sfx, p, m in msgs:
         mm = copy.deepcopy(m)
         mm.priority, mm.source, mm.destination = addressing(rnd, p["PGN"])
+        if rnd.random() < 0.1:
+            # addressing that does not fit the header: whichever format accepts the message has to carry it unchanged
+            a, v = rnd.choice([("source", 300), ("source", -1), ("source", 256), ("destination", 256), ("destination", 291), ("priority", 22), ("priority", 8)])
+            setattr(mm, a, v)
         seq = rnd.randrange(8)
         for fmt in (fmts or FORMATS):
             n += 1
